@@ -76,6 +76,60 @@ def dag_layered(rng, max_nodes=7, max_edges=10, max_routes=4, wmax=9, float_w=Fa
             "edges": _edges_json(flow, order), "routes": routes, "weights": weights}
 
 
+def dag_braid(rng, max_routes=3, wmax=9, float_w=False):
+    """Layered DAG with 3-4 layers of 1-2 nodes and (almost) complete bipartite connections between
+    consecutive layers: routes are long (one edge per layer) and cross each other at shared nodes."""
+    m = rng.randint(3, 4)
+    pool = names(rng, 10)
+    layers = []
+    for i in range(m + 1):
+        k = 1 if (i in (0, m) and rng.random() < 0.5) else rng.randint(1, 2)
+        layers.append([pool.pop() for _ in range(k)])
+    if all(len(l) == 1 for l in layers):
+        layers[m // 2].append(pool.pop())
+        layers[m // 2 + 1 if m // 2 + 1 <= m else m // 2 - 1].append(pool.pop())
+    order = []
+    for a, b in zip(layers[:-1], layers[1:]):
+        for u in a:
+            for v in b:
+                if rng.random() < 0.85:
+                    order.append((u, v))
+        for v in b:                      # every node has an in-edge
+            if not any(e[1] == v for e in order):
+                order.append((rng.choice(a), v))
+        for u in a:                      # and an out-edge
+            if not any(e[0] == u for e in order):
+                order.append((u, rng.choice(b)))
+    succ = {}
+    for u, v in order:
+        succ.setdefault(u, []).append(v)
+    routes = []
+    covered = set()
+    tries = 0
+    while (len(routes) < rng.randint(2, max_routes) or len(covered) < len(order)) and tries < 40 and len(routes) < max_routes + 3:
+        tries += 1
+        p = [rng.choice(layers[0])]
+        while p[-1] in succ:
+            nxt = succ[p[-1]]
+            unc = [y for y in nxt if (p[-1], y) not in covered]
+            p.append(rng.choice(unc) if unc else rng.choice(nxt))
+        es = set(zip(p[:-1], p[1:]))
+        if es <= covered and len(routes) >= 2:
+            continue
+        routes.append(p)
+        covered |= es
+    weights = [_w(rng, wmax, float_w) for _ in routes]
+    flow = _flow_from_routes(routes, weights)
+    order = [e for e in order if e in flow]
+    rng.shuffle(order)
+    nodes = []
+    for u, v in order:
+        for x in (u, v):
+            if x not in nodes:
+                nodes.append(x)
+    return {"kind": "dag", "nodes": nodes, "edges": _edges_json(flow, order), "routes": routes, "weights": weights}
+
+
 def _w(rng, wmax, float_w):
     if float_w:
         return round(rng.uniform(0.5, wmax), rng.choice([1, 2, 3]))
